@@ -262,6 +262,19 @@ def run_case(case):
     want_text = ";".join(f"{k}=" + ",".join(ref_text(k, x) for x in (as_list(sup[k]) if k != "UNTIL" else [sup[k]])) for k in keys)
     if not RECUR_RX.match(text):
         fails.append(fail("encoded-not-RECUR-grammar", case, "recur-rule-part *(; recur-rule-part), FREQ first", text))
+    # the rule inside a component written with and without property sorting, and as a single content line: the same text -
+    # `sorted=False` keeps the order of PROPERTIES, a rule's parts have one order (FREQ first)
+    try:
+        ev_ = Event()
+        ev_["RRULE"] = r
+        ev_.add("uid", "r")
+        for srt in (True, False):
+            lines_ = [ln for ln in ev_.to_ical(sorted=srt).decode("utf-8").replace("\r\n ", "").split("\r\n") if ln.startswith("RRULE:")]
+            if lines_ != ["RRULE:" + text]:
+                fails.append(fail(f"rule-inside-component-differs:sorted={srt}", case, "RRULE:" + text, lines_))
+                break
+    except Exception as e:  # noqa: BLE001
+        fails.append(fail("rule-inside-component-raises", case, "RRULE:" + text, f"{type(e).__name__}: {e}"))
     enc_parts = [p.split("=", 1) for p in text.split(";")]
     enc_keys = [p[0] for p in enc_parts]
     if sorted(enc_keys) != sorted(keys) or any(len(p) != 2 for p in enc_parts):
